@@ -70,6 +70,18 @@ def header_cases(seed: int, limit: int | None):
     return cases
 
 
+def english_cases():
+    """English title keywords as lines of every dialect's documents, each where that role could stand: recognised only where the dialect lists them."""
+    langs = master_dialects()
+    out = []
+    for d in sorted(langs):
+        D = langs[d]
+        for role, kw in (("feature", "Feature"), ("rule", "Rule"), ("background", "Background"), ("scenario", "Scenario"), ("scenario", "Example"),
+                         ("scenarioOutline", "Scenario Outline"), ("examples", "Examples")):
+            out.append((f"english:{d}:{role}:{kw}", doc_for(D, role, kw, "  ", " "), d))
+    return out
+
+
 def star_cases():
     """'* x' and the English step keywords as step lines in every dialect (recognised only where the dialect lists them)."""
     langs = master_dialects()
